@@ -244,6 +244,8 @@ impl Prop for C03 {
         out.extend(super::files::gen_cases(rng, scale, false));
         // the ANM container against `Files.readAnm` / `writeAnm` (Model/FilesAnm.lean)
         out.extend(super::files_anm::gen_cases(rng, scale, false));
+        // the stack ECL container (TH10+) against `Files.readEcl10` / `writeEcl10` (Model/FilesEcl10.lean, Model/InstrIO10.lean)
+        out.extend(super::files_ecl10::gen_cases(rng, scale, false));
         for _ in 0..500 * scale {
             let (f, g, text) = boundary_source(rng);
             out.push(Case::search(Sexp::app("file", vec![Sexp::atom(f.name()), Sexp::atom(format!("{}", g)), Sexp::list(vec![]), Sexp::str(text)])).tag(format!("boundary-file-{}", f.name())));
@@ -264,6 +266,12 @@ impl Prop for C03 {
             Some("wranm") => super::files_anm::eval_wranm(case),
             Some("anmsrc") => super::files_anm::eval_anmsrc(case),
             Some("anmwide") => super::files_anm::eval_anmwide(case),
+            Some("recl10") => super::files_ecl10::eval_recl10(case),
+            Some("wecl10") => super::files_ecl10::eval_wecl10(case),
+            Some("wrecl10") => super::files_ecl10::eval_wrecl10(case),
+            Some("ecl10src") => super::files_ecl10::eval_ecl10src(case),
+            Some("rinstrs10") => super::files_ecl10::eval_rinstrs10(case),
+            Some("winstrs10") => super::files_ecl10::eval_winstrs10(case),
             Some("wr-roundtrip") => {
                 let w = eval_winstr(case, false);
                 if w.head() != Some("ok") { return Sexp::app("rejected", vec![]); }
@@ -313,6 +321,11 @@ impl Prop for C03 {
             let mut v = case.as_list().to_vec();
             v[0] = Sexp::atom("wr-roundtrip");
             return vec![Case::search(Sexp::List(v))];
+        }
+        // stack ECL: a disagreement on the written bytes of a structure: does the written file read back as requested?
+        if case.head() == Some("wecl10") {
+            let a = case.args();
+            return vec![Case::search(Sexp::app("wrecl10", vec![a[0].clone(), a[2].clone()]))];
         }
         vec![]
     }
